@@ -215,14 +215,15 @@ def feasible(v):
     return True
 
 
-def rows_lock(exposed_idle=False):
+def rows_lock(exposures=()):
     for QE, op, t, back, front, next0 in itertools.product([True, False], ['None', 'Read', 'Write'], ['Read', 'Write'], ['Read', 'Write'], ['Read', 'Write'], [True, False]):
         v = dict(QE=QE, op=op, t=t, back=back, front=front, next0=next0)
         if feasible(v): yield v
-        elif exposed_idle and not QE and op == 'None' and not next0:
-            # I5 is not an invariant of this code (RES.14): unlock() leaves its critical section with the resource marked idle and
-            # requests still queued, so lock() can run in that state
-            yield dict(v, exposed=True)
+    # RES.14: states that unlock() leaves behind between its critical sections (holder count 0, select() still to come): lock() can run there
+    for eop, eqe, esite in exposures:
+        for t, back, front in itertools.product(['Read', 'Write'], ['Read', 'Write'], ['Read', 'Write']):
+            if eqe and (back != 'Read' or front != 'Read'): continue
+            yield dict(QE=eqe, op=eop, t=t, back=back, front=front, next0=False, exposed=esite)
 
 
 def show(v, keys):
@@ -290,17 +291,18 @@ class ResourceAnalysis:
 
     # ---- RES.14: is I5 (queue not empty => an operation is active) re-established before unlock() releases the mutex? ------------------
     def exposure(self):
-        """site at which unlock() releases the monitor mutex with the resource marked idle although requests are queued (the hand-over
-        to the queue head happens in a later critical section), or None"""
-        if hasattr(self, '_exposed'): return self._exposed
-        self._exposed = None
+        """the states unlock() leaves behind when it releases the monitor mutex between the decrement that brings the holder count to 0
+        and the select() that is still to come (the hand-over happens in a later critical section): [(active op, queue empty, site)]"""
+        if hasattr(self, '_exposures'): return self._exposures
+        self._exposures = []; self._exposed = None
         f = self.fn.get('unlock')
-        if f is None: return None
-        for front, t in itertools.product(['Read', 'Write'], ['Read', 'Write']):
-            v = dict(cnt1=True, QE=False, front=front, back=front, op=t, t=t, batch1=True)
+        if f is None: return self._exposures
+        for QE, front, t in itertools.product([True, False], ['Read', 'Write'], ['Read', 'Write']):
+            if QE and front != 'Read': continue
+            v = dict(cnt1=True, QE=QE, front=front, back=front, op=t, t=t, batch1=True)
             dom = ResDomain(v); ex = Exec(self.facts, dom)
             try: paths = [P_ for P_ in ex.run(f) if P_.end not in ('noreturn', 'throw')]
-            except Inconclusive: return None
+            except Inconclusive: return self._exposures
             for P in paths:
                 ev = P.events
                 cw = [i for i, e in enumerate(ev) if e[0] == 'write' and e[2][0][0] == 'f' and e[2][0][1][-1] == 'm_activeCount']
@@ -311,14 +313,17 @@ class ResourceAnalysis:
                     e = ev[i]
                     if e[0] == 'write' and e[2][0][0] == 'f' and e[2][0][1][-1] == 'm_activeOp': op = e[2][1]
                     released = e[0] == 'mutex.unlock' or (e[0] == 'autodtor' and str(e[2][2]).replace('const ', '').startswith(GUARDS)) or (e[0] == 'sync' and e[2] == 'unlock')
-                    if released and op == E('None'):
+                    if released and isinstance(op, Enum):
                         prev = next((x[1] for x in reversed(ev[:i]) if x[1] is not None), None)
-                        self._exposed = prev.shortloc() if prev is not None else f.shortloc()
-                        self.add('RES.14', None if False else True, 'unlock(): the state between its critical sections is taken into the lock() table', self._exposed,
-                                 '')
-                        return self._exposed
-        self.add('RES.14', True, 'unlock() re-establishes "queue not empty => an operation is active" before it releases the mutex', f.shortloc(), '')
-        return None
+                        site = prev.shortloc() if prev is not None else f.shortloc()
+                        opn = str(op.name if hasattr(op, 'name') else op).split('::')[-1]
+                        if (opn, QE) not in [(a_, b_) for a_, b_, _ in self._exposures]:
+                            self._exposures.append((opn, QE, site))
+                            self.add('RES.14', True, f'unlock(): the state it leaves between its critical sections (active operation {opn}, holder count 0, queue {"empty" if QE else "not empty"}, select() still to come) is taken into the lock() table', site, '')
+                        break
+        if self._exposures: self._exposed = self._exposures[0][2]
+        else: self.add('RES.14', True, 'unlock() decrements and selects in one critical section: no intermediate state is visible to lock()', f.shortloc(), '')
+        return self._exposures
 
     # ---- lock() --------------------------------------------------------------------------------------------------------
     def lock_rows(self):
@@ -328,7 +333,7 @@ class ResourceAnalysis:
         this = ('this',)
         seen = {}
         self.loop_form = False
-        for v0 in rows_lock(self.exposure() is not None):
+        for v0 in rows_lock(self.exposure()):
             for ord_after in ('<', '=', '>'):
                 v = dict(v0, ord_after=ord_after)
                 dom = ResDomain(v); ex = Exec(self.facts, dom)
@@ -337,7 +342,7 @@ class ResourceAnalysis:
                 if 'ord_after' not in used and ord_after != '<': continue
                 # rows that differ only in atoms the code never looked at take the same path, but the specification may still
                 # distinguish them (a guard that forgot to look at the queue): keep QE / op / t in every row
-                keep = set(used) | {'QE', 'op', 't'}
+                keep = set(used) | {'QE', 'op', 't'} | ({'exposed'} if v.get('exposed') else set())
                 if not v['QE'] and ({'front', 'back'} & set(used)): keep |= {'front', 'back'}      # which entry is touched is judged against both ends
                 sig = tuple((k, v[k]) for k in sorted(keep) if k in v)
                 if sig in seen: continue
@@ -400,11 +405,12 @@ class ResourceAnalysis:
         self._one_section(P, row, site, waited)
         admit_ok = v['op'] == 'None' or (v['op'] == 'Read' and v['t'] == 'Read')
         if v.get('exposed'):
-            row += f' [state left behind by unlock() at {self._exposed}]'
+            row += f' [holder count 0, select() pending: the state unlock() leaves behind at {v["exposed"]}]'
             if not waited:
+                then = ('select() then finds the queue empty and resets the resource to idle while this request holds it: the next writer is admitted next to it' if v['QE'] else
+                        'select() then admits the queue head as well and overwrites the holder count: two holders, one of them possibly a writer')
                 self.add('RES.2a', False, f'row {row}: admitted without waiting', site,
-                         f'unlock() marks the resource idle and releases the mutex at {self._exposed} before select() has admitted the queue head; a request arriving in between is admitted on the fast path, '
-                         f'then select() admits the queue head as well and overwrites the holder count: two holders, one of them possibly a writer')
+                         f'unlock() releases the mutex at {v["exposed"]} after the last holder left and before select() has run; a request arriving in between is admitted on the fast path; {then}')
                 self.add('RES.2b', False, f'row {row}: admitted without waiting', site, f'fast path admits past a non-empty queue (barging): {row}')
                 return
         if not waited:
